@@ -2,6 +2,8 @@
 From Coq Require Import List Arith Bool.
 Import ListNotations.
 From GS Require Import Num Sim Interop.
+From Coq Require Import ZArith.
+From GS Require Import NumZ.
 From GS.Proofs Require Import InteropP.
 
 (** Under the interop wrapper every callback returns exactly the requests the protocol issued
@@ -58,6 +60,13 @@ Theorem C14_extensions_noop :
     fst (ext_behaviour A (PythonProv false) c) = EffNone /\
     (snd (ext_behaviour A InteropProv c) = IOk \/ exists r, c = ExtCommSetRange r /\ fltb A r (f0 A) = true).
 Proof. intros. apply extensions_noop_outside_python. Qed.
+
+(** Non-vacuity: three callbacks under the interop wrapper; each returns exactly its own requests, in order;
+    cancel_timer is the documented unsupported call. *)
+Example C14_example :
+  interop_session Z_ops [] [[RAct (ASetTimer 1 5%Z); RAct (ASend 3 (Some 2)); RTrack 1 2]; []; [RAct (ACancel 1); RAct (AGoto (1, 2, 3)%Z)]] =
+  [([CTimer 1 5%Z; CComm false 3 (Some 2); CTrack 1 2], [IOk; IOk; IOk]); ([], []); ([CGoto (1, 2, 3)%Z], [INotImplemented; IOk])].
+Proof. vm_compute. reflexivity. Qed.
 
 Print Assumptions C14_collect_exact.
 Print Assumptions C14_session_exact.
